@@ -200,7 +200,7 @@ func c02Mutate(r *hx.Run, s string) string {
 	rr := r.Rng
 	b := []byte(s)
 	lines := strings.Split(s, "\n")
-	switch rr.Intn(12) {
+	switch rr.Intn(15) {
 	case 0: // delete a line
 		if len(lines) > 1 {
 			k := rr.Intn(len(lines))
@@ -250,6 +250,21 @@ func c02Mutate(r *hx.Run, s string) string {
 		return strings.Join(lines, "\n")
 	case 9: // replace a rule by a degenerate mapping
 		return s + hx.Pick(rr, []string{"  - {}\n", "  - labels: {}\n", "  - for: 1m\n", "  - annotations:\n      a: b\n", "  - []\n", "  - ~\n", "  - x\n", "  - record: ''\n    expr: ''\n"})
+	case 12: // trailing non-rule content (relaxed mode walks every scalar), with or without a final newline
+		t := hx.Pick(rr, []string{"notes: \"first\\nsecond\\nthird\"\n", "notes: \"first\\nsecond\\nthird\"", "k: |\n a: 1\n b: 2\n", "k: >-\n a\n\n b", "z: 'a\n\n  b'", "last: \"x\\n\\n\\n\"", "? complex\n: \"v\\n1\\n2\""})
+		if !strings.HasSuffix(s, "\n") && s != "" {
+			s += "\n"
+		}
+		return s + t
+	case 13: // wrap the document in a manifest (rules are found below arbitrary keys in relaxed mode)
+		var sb strings.Builder
+		sb.WriteString("apiVersion: v1\nkind: ConfigMap\nmetadata:\n  annotations:\n    notes: \"a\\nb\\nc\"\nspec:\n")
+		for _, l := range lines {
+			sb.WriteString("  " + l + "\n")
+		}
+		return strings.TrimSuffix(sb.String(), "\n")
+	case 14: // lone CR line breaks in front (YAML counts them as lines)
+		return hx.Pick(rr, []string{"\r", "\r\r", "\r\n\r"}) + s
 	case 10: // tabs
 		k := rr.Intn(len(lines))
 		lines[k] = strings.Replace(lines[k], "  ", "\t", 1)
